@@ -59,10 +59,10 @@ func TestC06CrashPoints(t *testing.T) {
 		journal, snap := D.AttachJournal()
 		// crash-free run: remember, per arrival, the journal range it wrote and the tips before/after
 		type arrival struct {
-			from, to       int // journal units [from, to)
-			before, after  []byte
-			desc           string
-			reorg          bool
+			from, to      int // journal units [from, to)
+			before, after []byte
+			desc          string
+			reorg         bool
 		}
 		var arrivals []arrival
 		var known []*types.Block
@@ -249,7 +249,6 @@ func TestC06CrashPoints(t *testing.T) {
 		})
 	})
 }
-
 
 func storedIn(n *vnode.Node, hash []byte) bool {
 	_, err := n.CS.GetBlock(hash)
